@@ -12,6 +12,7 @@ TESTS_OK=1; TLOG=""
 for t in "$@"; do
   cmake --build $WT/_build --target $t -j8 >/tmp/scr/build.log 2>&1 || { echo "build of $t failed"; tail -5 /tmp/scr/build.log; TESTS_OK=0; continue; }
   exe=$(find $WT/_build/modules -name $t -type f | head -1)
+  if [ -z "$exe" ]; then TLOG="$TLOG $t: library target rebuilt (no test binary links it);"; continue; fi
   (cd $(dirname $exe) && timeout 900 $exe --gtest_filter='-DnsRequest.request_*:Uart.*:fs.MakeDirectory:SleepAction.*:LoopAction.SleepActionForever' >/tmp/scr/test_$t.log 2>&1); rc=$?
   res=$(grep -E "^\[  (PASSED|FAILED)" /tmp/scr/test_$t.log | tr '\n' ' ')
   TLOG="$TLOG $t: rc=$rc $res;"
